@@ -370,7 +370,7 @@ func genArgs(r *kernel.Rand, d *c16Data) {
 		name := kernel.Pick(r, names)
 		switch r.Intn(4) {
 		case 0:
-			v := kernel.Pick(r, []string{"str", "", "with space", "1", "null", "héllo", `{"x":1}`})
+			v := kernel.Pick(r, []string{"str", "", "with space", "1", "null", "héllo", `{"x":1}`, "--", "-", "-n", "--arg", "---", "-x", "--args", "--jsonargs", "-f", "--indent", "-s", "--stream"})
 			sc.PreArgs = append(sc.PreArgs, "--arg", name, v)
 			bind(name, v)
 		case 1:
@@ -409,6 +409,25 @@ func genArgs(r *kernel.Rand, d *c16Data) {
 				js := kernel.Pick(r, []string{`1`, `"s"`, `null`, `[1,2]`, `{"a":null}`, `false`, `100000000000000000000`, `1.0`})
 				sc.PostArgs = append(sc.PostArgs, js)
 				positional = append(positional, json.RawMessage(js))
+			}
+		}
+	}
+	// after the `--` terminator everything is an operand: with --args in effect, dash-leading strings are positional values
+	if n := len(sc.PostArgs); n > 0 && r.Bool(0.3) {
+		lastArgs := false
+		for _, a := range sc.PostArgs {
+			if a == "--args" {
+				lastArgs = true
+			} else if a == "--jsonargs" {
+				lastArgs = false
+			}
+		}
+		if lastArgs {
+			sc.PostArgs = append(sc.PostArgs, "--")
+			for i := r.Range(1, 3); i > 0; i-- {
+				v := kernel.Pick(r, []string{"-b", "--c", "--", "-", "--arg", "plain", "-n"})
+				sc.PostArgs = append(sc.PostArgs, v)
+				positional = append(positional, v)
 			}
 		}
 	}
